@@ -67,6 +67,9 @@ type clHooks struct {
 	aroundPosOp func(w *clWorld, p *clPos, op string) func(res chain.ExecResult, idAfter uint64)
 	// protected positions (fairness probes) are not touched by the random operations
 	protect func(p *clPos) bool
+	// neighbour: one history in three gets a second concentrated pool whose decimal id starts with the main pool's
+	// (1 and 10), with its own positions and incentive records, and claims that list positions of both pools
+	neighbour bool
 }
 
 type clWorld struct {
@@ -105,6 +108,9 @@ type clWorld struct {
 	prevCheckTime time.Time
 	prevLiquidity osmomath.Dec
 	incDust       map[string]*big.Rat // allowance for truncated incentive emissions, per denom
+	// the neighbour pool (0 = none) and its positions (id -> owner index)
+	nbrID  uint64
+	nbrPos map[uint64]int
 }
 
 func (w *clWorld) pool() cltypes.ConcentratedPoolExtension {
@@ -192,7 +198,93 @@ func newCLWorld(c *vk.Ctx, r *vk.Rng, hooks clHooks) *clWorld {
 	}
 	w.poolID = w.ch.App.PoolManagerKeeper.GetNextPoolId(w.ch.Ctx) - 1
 	c.Logf("pool %d spacing=%d spread=%s scaled=%v uptimes=%v", w.poolID, w.spacing, w.spread, w.scaled, w.uptimes)
+	if hooks.neighbour && r.Intn(3) == 0 {
+		// pools 2..9 are empty fillers; pool 10 is the neighbour
+		for w.ch.App.PoolManagerKeeper.GetNextPoolId(w.ch.Ctx) <= 10 {
+			m := clmodel.NewMsgCreateConcentratedPool(w.lps[1].Addr, w.d0, w.d1, uint64(clSpacings[r.Intn(4)]), cltypes.AuthorizedSpreadFactors[r.Intn(len(cltypes.AuthorizedSpreadFactors))])
+			if res := w.ch.Exec(&m); !res.OK() {
+				panic("create filler CL pool: " + res.ErrString())
+			}
+		}
+		w.nbrID = w.ch.App.PoolManagerKeeper.GetNextPoolId(w.ch.Ctx) - 1
+		w.nbrPos = map[uint64]int{}
+		w.nbrCreate(3, cltypes.MinInitializedTick, cltypes.MaxTick)
+		c.Logf("neighbour pool %d", w.nbrID)
+	}
 	return w
+}
+
+// nbrCreate opens a position in the neighbour pool.
+func (w *clWorld) nbrCreate(owner int, lo, hi int64) {
+	np, err := w.ch.App.ConcentratedLiquidityKeeper.GetConcentratedPoolById(w.ch.Ctx, w.nbrID)
+	if err != nil {
+		return
+	}
+	sp := int64(np.GetTickSpacing())
+	lo, hi = roundDown(lo, sp), roundDown(hi, sp)
+	if lo < cltypes.MinInitializedTick {
+		lo += sp
+	}
+	if hi <= lo {
+		hi = lo + sp
+	}
+	coins := sdk.NewCoins(sdk.NewCoin(w.d0, sdkmath.NewInt(1_000_000+w.r.I64n(1_000_000_000_000))), sdk.NewCoin(w.d1, sdkmath.NewInt(1_000_000+w.r.I64n(1_000_000_000_000))))
+	res := w.ch.Exec(&cltypes.MsgCreatePosition{PoolId: w.nbrID, Sender: w.lps[owner].Addr.String(), LowerTick: lo, UpperTick: hi, TokensProvided: coins, TokenMinAmount0: sdkmath.ZeroInt(), TokenMinAmount1: sdkmath.ZeroInt()})
+	w.c.Logf("neighbour CreatePosition(owner %d, [%d,%d), %s) ok=%v %s", owner, lo, hi, coins, res.OK(), trunc(res.ErrString(), 120))
+	if res.OK() {
+		var rsp cltypes.MsgCreatePositionResponse
+		if unpackResp(res, "MsgCreatePositionResponse", &rsp) {
+			w.nbrPos[rsp.PositionId] = owner
+		}
+	}
+}
+
+// nbrStep is one operation on the neighbour pool: a young position, an incentive record, a full withdrawal.
+func (w *clWorld) nbrStep() string {
+	r := w.r
+	k := w.ch.App.ConcentratedLiquidityKeeper
+	switch r.Intn(4) {
+	case 0, 1:
+		np, err := k.GetConcentratedPoolById(w.ch.Ctx, w.nbrID)
+		if err != nil {
+			return ""
+		}
+		cur, sp := np.GetCurrentTick(), int64(np.GetTickSpacing())
+		w.nbrCreate(r.Intn(len(w.lps)), cur-sp*int64(1+r.Intn(50)), cur+sp*int64(1+r.Intn(50)))
+		return "neighbour-create"
+	case 2:
+		d := w.incentDenoms[r.Intn(len(w.incentDenoms))]
+		amt := w.amount(3, 18)
+		rate := sdkmath.LegacyNewDecFromBigIntWithPrec(r.BigMag(14, 26), 18)
+		up := w.uptimes[r.Intn(len(w.uptimes))]
+		cctx, write := w.ch.Ctx.CacheContext()
+		_, err := k.CreateIncentive(cctx, w.nbrID, w.funder.Addr, sdk.NewCoin(d, amt), rate, w.ch.Ctx.BlockTime(), up)
+		w.c.Logf("neighbour CreateIncentive(%s%s, rate %s/s, uptime %s) err=%v", amt, d, rate, up, err)
+		if err == nil {
+			write()
+		}
+		return "neighbour-incentive"
+	default:
+		var ids []uint64
+		for id := range w.nbrPos {
+			ids = append(ids, id)
+		}
+		sort.Slice(ids, func(a, b int) bool { return ids[a] < ids[b] })
+		if len(ids) < 2 {
+			return ""
+		}
+		id := ids[1+r.Intn(len(ids)-1)] // the first (full-range) position stays
+		pos, err := k.GetPosition(w.ch.Ctx, id)
+		if err != nil {
+			return ""
+		}
+		res := w.ch.Exec(&cltypes.MsgWithdrawPosition{PositionId: id, Sender: w.lps[w.nbrPos[id]].Addr.String(), LiquidityAmount: pos.Liquidity})
+		w.c.Logf("neighbour WithdrawPosition(%d) ok=%v %s", id, res.OK(), trunc(res.ErrString(), 120))
+		if res.OK() {
+			delete(w.nbrPos, id)
+		}
+		return "neighbour-withdraw"
+	}
 }
 
 func (w *clWorld) close() { w.ch.Close() }
@@ -581,6 +673,11 @@ func (w *clWorld) step(mix string) string {
 		w.c.Logf("governance: authorised uptimes = %v", sub)
 		return "governance-uptimes"
 	}
+	if w.nbrID != 0 && r.Intn(10) == 0 {
+		if op := w.nbrStep(); op != "" {
+			return op
+		}
+	}
 	total := 0
 	for _, x := range wt {
 		total += x
@@ -744,7 +841,26 @@ func (w *clWorld) step(mix string) string {
 		p := ps[r.Intn(len(ps))]
 		w.c.Logf("CollectIncentives(%d)", p.id)
 		aft := around(p, "collect-incentives")
-		res := w.ch.Exec(&cltypes.MsgCollectIncentives{PositionIds: []uint64{p.id}, Sender: w.lps[p.owner].Addr.String()})
+		ids := []uint64{p.id}
+		if w.nbrID != 0 && r.Bool() {
+			// one message claims for positions of both pools, in either order
+			var mine []uint64
+			for id, o := range w.nbrPos {
+				if o == p.owner {
+					mine = append(mine, id)
+				}
+			}
+			sort.Slice(mine, func(a, b int) bool { return mine[a] < mine[b] })
+			for _, id := range mine {
+				if r.Bool() {
+					ids = append(ids, id)
+				} else {
+					ids = append([]uint64{id}, ids...)
+				}
+			}
+			w.c.Logf("  with neighbour positions: %v", ids)
+		}
+		res := w.ch.Exec(&cltypes.MsgCollectIncentives{PositionIds: ids, Sender: w.lps[p.owner].Addr.String()})
 		if res.OK() {
 			var rsp cltypes.MsgCollectIncentivesResponse
 			unpackResp(res, "MsgCollectIncentivesResponse", &rsp)
